@@ -264,9 +264,14 @@ func (w *c09world) apply(op c09op) {
 	switch op.kind {
 	case "cb":
 		in := w.newInst(op.slot)
-		ctx, cancel := context.WithCancel(context.Background())
+		// contexts carry custom causes: Callback must still report the context's
+		// own error (context.Canceled / DeadlineExceeded), not the cause
+		cctx, ccancel := context.WithCancelCause(context.Background())
+		ctx, cancel := context.Context(cctx), context.CancelFunc(func() { ccancel(errors.New("operator gave up")) })
 		if op.slot == 2 {
-			ctx, cancel = context.WithTimeout(context.Background(), time.Second)
+			tctx, tcancel := context.WithTimeoutCause(cctx, time.Second, errors.New("prompt timed out"))
+			ctx = tctx
+			cancel = func() { tcancel(); ccancel(errors.New("operator gave up")) }
 			in.deadline = true
 		}
 		in.cancel = cancel
